@@ -17,7 +17,7 @@ import numpy as np
 warnings.simplefilter('ignore')
 
 from harness import c02_gen, c02_ops, c02_stepgen  # noqa: E402
-from harness.c02_oracle import dump_arr, struct_of, oracle_arr, valid  # noqa: E402
+from harness.c02_oracle import dump_arr, struct_of, oracle_arr, valid, classify  # noqa: E402
 
 T = {}
 
@@ -122,18 +122,21 @@ def run_history(case, level=0, steps=None, record=True):
             if o:
                 bad = True
                 if rec['status'] == 'error':
-                    fail('error-left-inconsistent', f'{rec.get("msg")}; {n}: {o}', k, st)
+                    fail('error-left-inconsistent.' + classify(o), f'{rec.get("msg")}; {n}: {o}', k, st)
                 elif n in touched:
-                    fail('insane', f'{n}: {o}', k, st)
+                    fail('insane.' + classify(o), f'{n}: {o}', k, st)
                 else:
-                    fail('sibling-insane', f'{n} (not an operand that is modified): {o}', k, st)
+                    fail('sibling-insane.' + classify(o), f'{n} (not an operand that is modified): {o}', k, st)
         if not bad:
             for n, t in env.items():
                 if n in before and (n not in touched or rec['status'] == 'error'):
                     if struct_of(dump_arr(t, io)) != before[n]:
                         bad = True
-                        fail('error-left-inconsistent' if rec['status'] == 'error' else 'frame',
+                        fail('error-left-inconsistent.frame' if rec['status'] == 'error' else 'frame',
                              f'{n} changed although it is not modified by this call', k, st)
+        if rec['status'] == 'error' and st.get('valid') and not bad:
+            fail('raised', f'{rec.get("msg")} although the operands are compatible (checked independently)', k, st)
+            bad = True
         if st.get('expect') == 'error' and rec['status'] != 'error' and not bad:
             fail('accepted-invalid-argument', f'{st}', k, st)
             bad = True
